@@ -50,6 +50,39 @@ theorem C07_call_order :
       = ["self.header.deserialize", "self.compose.deserialize", "image_obj.deserialize", "self._add_1_1", "self.add", "self.header.set_current_version"] := by
   decide +kernel
 
+/-- the GUARD under which each nested reader is called (not only the order): the base product is read exactly when the release
+just read says it is layered (`if self.release.is_layered:`) — the model `ciFrontFill`/`tiFrontFill` does the same, which is what
+makes the base-product section REQUIRED for a layered release; a layered-product variant's own release is read under
+`self.type == "layered-product"`; every image goes through `add` (or `_add_1_1` on the other side of the generated gate); all other
+section readers are called unconditionally -/
+theorem C07_call_guards :
+    (callSeq Gen.struct_composeinfo_ComposeInfo_deserialize).map (fun e => (e.2.1, e.2.2))
+      = [("self.header.deserialize", []), ("self.compose.deserialize", []), ("self.release.deserialize", []),
+         ("self.base_product.deserialize", ["if:self.release.is_layered"]), ("self.variants.deserialize", []),
+         ("self.header.set_current_version", [])]
+    ∧ (callSeq Gen.struct_treeinfo_TreeInfo_deserialize).map (fun e => (e.2.1, e.2.2))
+      = [("self.header.deserialize", []), ("self.release.deserialize", []), ("self.base_product.deserialize", ["if:self.release.is_layered"]),
+         ("self.tree.deserialize", []), ("self.variants.deserialize", []), ("self.checksums.deserialize", []), ("self.images.deserialize", []),
+         ("self.stage2.deserialize", []), ("self.media.deserialize", []), ("self", []), ("self.header.set_current_version", [])]
+    ∧ (callSeq Gen.struct_composeinfo_Variant_deserialize).map (fun e => (e.2.1, e.2.2))
+      = [("self.release.deserialize", ["ifeq:self.type=layered-product"]), ("self.paths.deserialize", []),
+         ("variant.deserialize", ["for:variant_uids"]), ("self.add", ["for:variant_uids"]), ("self", [])]
+    ∧ (callSeq Gen.struct_composeinfo_Variants_deserialize).map (fun e => (e.2.1, e.2.2))
+      = [("child_variants.add", ["for:data[self._section].values()", "for:var.get('variants', [])"]),
+         ("variant.deserialize", ["for:variant_ids"]), ("self.add", ["for:variant_ids"])]
+    ∧ (callSeq Gen.struct_treeinfo_Variants_deserialize).map (fun e => (e.2.1, e.2.2))
+      = [("self.deserialize_0_0", ["gate:gate_treeinfo_Variants_deserialize_0"]), ("self.deserialize_1_0", ["notgate:gate_treeinfo_Variants_deserialize_0"]),
+         ("variant.deserialize", ["for:variant_ids"]), ("self.add", ["for:variant_ids"]), ("self", [])]
+    ∧ (callSeq Gen.struct_images_Images_deserialize).map (fun e => (e.2.1, e.2.2))
+      = [("self.header.deserialize", []), ("self.compose.deserialize", []),
+         ("image_obj.deserialize", ["for:data['payload']['images']", "for:data['payload']['images'][variant]", "for:data['payload']['images'][variant][arch]"]),
+         ("self._add_1_1", ["for:data['payload']['images']", "for:data['payload']['images'][variant]", "for:data['payload']['images'][variant][arch]",
+                            "gate:gate_images_Images_deserialize_0"]),
+         ("self.add", ["for:data['payload']['images']", "for:data['payload']['images'][variant]", "for:data['payload']['images'][variant][arch]",
+                       "notgate:gate_images_Images_deserialize_0"]),
+         ("self.header.set_current_version", [])] := by
+  decide +kernel
+
 /-! ## soundness of a successful load -/
 
 theorem loadsWith_ok {α} (fill : PyVal → Except Err α) (checks : α → List Step) (d : PyVal) (x : α)
